@@ -2,7 +2,7 @@
 # regenerates /verif/MANIFEST.json from the table below
 import json
 P = {
- 'C01': ('exploration','real tool on seeded random setup files of every generator profile plus a fixed list of C14's faulty inputs; every exit-0 output judged by a gofmt fixpoint monitor and go/types in its package','E2 toolrun + E3 outmon'),
+ 'C01': ('exploration','real tool on seeded random setup files of every generator profile plus a fixed list of the faulty inputs of C14; every exit-0 output judged by a gofmt fixpoint monitor and go/types in its package','E2 toolrun + E3 outmon'),
  'C02': ('exploration','generated functions compiled with instrumented callbacks and executed on fixed + random valuations; destination compared leaf by leaf with a model built from the observed plan; operands dumped before/after; panics attributed','E5 execmon'),
  'C03': ('exploration','real tool on in-convention layout and broad scenarios; oracle = exit 0 and function multiset equals the interface methods','E1 layout generator + E3'),
  'C04': ('exploration','independent reference matcher over go/types vs the observed plan per destination leaf, on the complete type-pair matrix (thorough) and random struct pairs; M3 opt-in monitor','E4 refmodel + E3'),
